@@ -2,3 +2,5 @@ SPECIFICATION CSpec
 INVARIANT RecordsAreCatalogued
 INVARIANT AllRequiredDischarged
 INVARIANT RecordsClean
+INVARIANT AllRoutesRun
+INVARIANT RoutesClean
